@@ -7,5 +7,6 @@ from rules import panic_common as P
 def run(chk):
     f = F.load()
     roots = R.txt_roots(f)
-    reviewed = P.run_scope(chk, "TXT", roots, floor_roots=10, floor_bodies=200, floor_sinks=150, reviewed_file="reviewed_safe.json")
+    reviewed = P.run_scope(chk, "TXT", roots, floor_roots=10, floor_bodies=200, floor_sinks=150, reviewed_file="reviewed_safe.json",
+                           invariants=P.TERMINAL_INVARIANTS)
     return P.finish(chk, reviewed, "No undischarged panic origin is reachable from any of the 10 text-mode print_char entry points.")
